@@ -97,8 +97,14 @@ class Rig:
         self.timedelta = timedelta
         self.VTS = VirtualTimeScheduler
         c0 = case.get("clock", 0)
+        self.tz = None
+        if self.kind == "hist" and case.get("tz_offset_min") is not None:
+            from datetime import timezone
+
+            self.tz = timezone(timedelta(minutes=case["tz_offset_min"]))   # aware datetimes written in a non-UTC zone
         if self.kind == "hist":
-            self.s = HistoricalScheduler(UTC_ZERO + timedelta(microseconds=c0))
+            init = UTC_ZERO + timedelta(microseconds=c0)
+            self.s = HistoricalScheduler(init.astimezone(self.tz) if self.tz is not None else init)
         elif self.kind == "test":
             self.s = TestScheduler(c0)
         else:
@@ -125,7 +131,10 @@ class Rig:
 
     # -- time conversions (integers only)
     def abs_(self, t):
-        return self.UTC_ZERO + self.timedelta(microseconds=t) if self.kind == "hist" else t
+        if self.kind != "hist":
+            return t
+        d = self.UTC_ZERO + self.timedelta(microseconds=t)
+        return d.astimezone(self.tz) if self.tz is not None else d   # the same instant, written in the case's zone
 
     def rel(self, t):
         return self.timedelta(microseconds=t) if self.kind == "hist" else t
@@ -496,13 +505,20 @@ def _run_periodic(case):
                 else:
                     import reactivex
 
-                    src = reactivex.interval(rig.rel(period)) if via == "interval" else reactivex.timer(rig.rel(period), rig.rel(period))
                     fn = make_action(pid)
 
                     def on_next(v, fn=fn):
                         fn(v)
 
-                    rig.handles[pid] = src.subscribe(on_next, scheduler=target)
+                    if case.get("op_level"):
+                        # scheduler given to the OPERATOR; a different, never-started scheduler given to subscribe(): the
+                        # operator-level one must be used
+                        src = (reactivex.interval(rig.rel(period), scheduler=target) if via == "interval"
+                               else reactivex.timer(rig.rel(period), rig.rel(period), scheduler=target))
+                        rig.handles[pid] = src.subscribe(on_next, scheduler=type(rig.s)())
+                    else:
+                        src = reactivex.interval(rig.rel(period)) if via == "interval" else reactivex.timer(rig.rel(period), rig.rel(period))
+                        rig.handles[pid] = src.subscribe(on_next, scheduler=target)
             elif k == "dispose_at":
                 _, t, pid = op
                 def disp(sc, st, pid=pid):
@@ -590,7 +606,7 @@ def gen_catch_siblings(rng, kind=None):
     ops.append(["periodic", late, lp, 0, True, lvia])
     ops.append(["advance_to", T1 + unit + max(maxp, lp) * rng.randrange(2, 6)])
     return {"op": "per_script", "sched": kind, "clock": c0, "fns": fns, "ops": ops, "handler_true": ht,
-            "handler_default": False, "via": "schedule_periodic"}
+            "handler_default": False, "via": "schedule_periodic", "op_level": rng.random() < 0.5}
 
 
 def gen_periodic(rng, kind=None, catch_p=0.0, raise_p=0.3, via="schedule_periodic"):
@@ -637,7 +653,8 @@ def gen_periodic(rng, kind=None, catch_p=0.0, raise_p=0.3, via="schedule_periodi
             if rng.random() < 0.5:
                 ht.append(f"p{fn['pid']}s{st}")
     return {"op": "per_script", "sched": kind, "clock": c0, "fns": fns, "ops": ops, "handler_true": ht,
-            "handler_default": False, "via": via}
+            "handler_default": False, "via": via, "op_level": rng.random() < 0.5,
+            "tz_offset_min": rng.choice([None, 120, -300, 330]) if kind == "hist" else None}
 
 
 def periodic_property_oracle(case, out):
